@@ -73,7 +73,11 @@ def _mocker_kwargs(kind: str, value: Any, once: bool, endpoint: str = '', method
 
 
 def _draw_params(ch: Any) -> Any:
-    return ch.choice([[1, 2], {'a': 1, 'b': 2}, [], ['s'], {'x': 'y'}, [0], {'a': 1.5}, [1, 2, 3]], 'call.params')
+    return ch.choice([[1, 2], {'a': 1, 'b': 2}, [], ['s'], {'x': 'y'}, [0], {'a': 1.5}, [1, 2, 3],
+                      # named parameters that happen to be called like things the mocker itself talks about
+                      {'version': 2, 'name': 'users'}, {'endpoint': 'e', 'method_name': 'm'},
+                      {'kwargs': 1, 'call': [1]}],
+                     'call.params')
 
 
 def _draw_ops(ch: Any, n_ops: int, model_for_preconditions: MockerModel, allow_batch: bool = True) -> List[Dict[str, Any]]:
@@ -96,6 +100,8 @@ def _draw_ops(ch: Any, n_ops: int, model_for_preconditions: MockerModel, allow_b
                 continue
             e, me = ch.choice(keys, 'op.key')
             idx = ch.draw(len(m.patches[e][me]), 'op.idx')
+            if ch.flag(1, 3, 'op.idx.from_end'):
+                idx -= len(m.patches[e][me])      # the same position addressed from the end (-1 = the last patch)
             pk, pv, once = _draw_patch(ch)
             m.replace(e, me, idx, pk, pv, once)
             ops.append({'op': 'replace', 'endpoint': e, 'method': me, 'idx': idx, 'patch': [pk, pv, once]})
